@@ -143,7 +143,7 @@ func OpString(op treefs.Op) string {
 	case "Writer":
 		fmt.Fprintf(&b, "Writer(%q)+%q%s+Close", op.P, op.Chunks, map[string]string{"": "", "copy": " via io.Copy", "string": " via io.WriteString", "mixed": " via Write / io.WriteString / io.Copy in turn"}[op.Via])
 	case "Reader":
-		fmt.Fprintf(&b, "Reader(%q,buf=%d)", op.P, op.Buf)
+		fmt.Fprintf(&b, "Reader(%q,buf=%d%s)", op.P, op.Buf, map[string]string{"": "", "copy": ", drained via io.Copy", "head+copy": ", header via Read then io.Copy"}[op.Via])
 	case "CopyFile", "CopyDirectory", "Copy":
 		fmt.Fprintf(&b, "%s(%q,%q)", op.Kind, op.P, op.Q)
 	default:
